@@ -694,11 +694,38 @@ impl Driver for C08 {
                 let stratum = STRATA[rng.gen_range(0..STRATA.len())];
                 gen_model(&mut rng, stratum)
             };
+            // a declared variable whose only occurrences are multiplied by a zero written on the left: it occurs in
+            // the source, so it is a column (an all-zero one); checked through the text door, which marks usage itself
+            let mut zero_factor: Option<M> = None;
+            if !hostile && rng.gen_bool(0.25) && m.n() < 4 {
+                let mut t = m.clone();
+                t.names.push("zed".into());
+                t.types.push(VT::Real(0.0, 5.0));
+                let z = E::Var(t.n() - 1);
+                let term = E::mul(E::Num(0.0), z);
+                match rng.gen_range(0..3) {
+                    0 if t.sense != Sense::Satisfy => t.obj = E::add(t.obj.clone(), term),
+                    1 => t.cons.push(Con { name: None, kind: CKind::Cmp(term, Cmp::Ge, E::Num(-1.0)) }),
+                    _ => t.cons.push(Con { name: None, kind: CKind::Cmp(E::add(E::Var(0), term), Cmp::Le, E::Num(9.0)) }),
+                }
+                zero_factor = Some(t);
+            }
             if only.is_some_and(|o| o != case) {
                 continue;
             }
             out.case = case;
             out.eval();
+            if let Some(t) = &zero_factor {
+                let mut trng = unit_rng(ctx, "C08t", out.unit * 100 + case);
+                let text = crate::text::model_text(t, &mut trng, crate::text::Style::plain());
+                if let crate::props::c12::Recompiled::Ok(lm) = crate::props::c12::compile_text(&text) {
+                    out.tag("zero-factor-variable:compiled-from-text");
+                    if let Some((sig, what)) = wellformed(&lm, Some(t)).into_iter().next() {
+                        out.violation(&format!("{sig}(text door)"), &what, json!({"text": text, "linear_model": lm.to_string()}));
+                        continue;
+                    }
+                }
+            }
             // whether an exact lowering is needed (and hence whether missing bounds are an error) may not
             // depend on how a constant scale is written: e / c against e * (1/c), c a power of two
             if let Some(twin) = div_twin(&m) {
